@@ -52,8 +52,9 @@ func genCase(r *gen.Rand, i int) any {
 		c.Queue = "flowbuffer"
 	}
 	if c.Kind == "done-ctx" {
-		c.DoneBy = gen.Pick(r, []string{"cancel", "deadline"})
-		c.Multi = r.Bool()
+		v := i / len(kinds) // every variant in turn: a quick run covers single/batch x cancel/deadline
+		c.Multi = v%2 == 1
+		c.DoneBy = []string{"cancel", "deadline"}[(v/2)%2]
 	}
 	if c.Kind == "cache-wait" {
 		c.Adapt = r.Bool()
@@ -240,14 +241,22 @@ func once(c Case) (at attempt) {
 		}
 		defer cancel()
 		at.started = time.Now()
-		if c.Multi {
-			for _, r := range cl.DoMulti(ctx, cl.B().Echo().Message(tag).Build(), cl.B().Echo().Message(pipe.Tag(2, 1)).Build()) {
-				if e := r.NonRedisError(); e != nil && at.err == nil {
-					at.err = e
+		// three calls in a row (the flow buffer's put chooses at random between a free position and the done context):
+		// the first one is the call of the model term, every one must fail with the context's error and send nothing
+		for rep := 0; rep < 3; rep++ {
+			var e1 error
+			if c.Multi {
+				for _, r := range cl.DoMulti(ctx, cl.B().Echo().Message(tag).Build(), cl.B().Echo().Message(pipe.Tag(2, 1)).Build()) {
+					if e := r.NonRedisError(); e != nil && e1 == nil {
+						e1 = e
+					}
 				}
+			} else {
+				e1 = cl.Do(ctx, cl.B().Echo().Message(tag).Build()).NonRedisError()
 			}
-		} else {
-			at.err = cl.Do(ctx, cl.B().Echo().Message(tag).Build()).NonRedisError()
+			if rep == 0 || e1 == nil || !errors.Is(e1, ctx.Err()) {
+				at.err = e1
+			}
 		}
 		at.took = time.Since(at.started)
 		at.ctxErr = ctxErrOf(ctx)
